@@ -60,6 +60,33 @@ Theorem save_crash_kv_no_reset :
 Proof. exact kv_crash_no_reset. Qed.
 Print Assumptions save_crash_kv_no_reset.
 
+(* file names of any length: a name too long for its tmp file (more than 242
+   bytes) makes the save fail before anything is written *)
+Theorem save_crash_safe_all_names :
+  forall (W : Type) (parse : content -> parsed W) (meta_ok : content -> bool)
+         (accept : list (string * W) -> bool)
+         (w : bool) (name h : string) (data : content) (d : dir) (k cut : nat),
+  hex8b h = true ->
+  let start := wallet_start W parse meta_ok accept in
+  let c := crash (service_ops_fs w name h data) k cut d in
+  start c = start d \/ start c = start (set name data d).
+Proof. exact wallet_crash_safe_fs. Qed.
+Print Assumptions save_crash_safe_all_names.
+
+Theorem save_crash_safe_kv_all_names :
+  forall (K : Type) (parsekv : content -> option K) name h data d k cut,
+  let c := crash (service_ops_fs false name h data) k cut d in
+  kv_start K parsekv name c = kv_start K parsekv name d \/
+  kv_start K parsekv name c = kv_start K parsekv name (set name data d).
+Proof. exact kv_crash_safe_fs. Qed.
+Print Assumptions save_crash_safe_kv_all_names.
+
+Theorem save_long_name_is_noop :
+  forall (w : bool) (name h : string) (data : content) (d : dir) (k cut : nat),
+  tmp_creatable name = false -> crash (service_ops_fs w name h data) k cut d = d.
+Proof. exact long_name_save_is_noop. Qed.
+Print Assumptions save_long_name_is_noop.
+
 (* no data lost elsewhere: every file other than the target and the tmp file
    keeps its content at every crash point *)
 Theorem save_crash_other_files_untouched :
